@@ -286,6 +286,16 @@ theorem spec_holds_on_model_alloc (reg : Reg) (heap : List Word) (hreg : RegOK r
     rw [h1, init_wordOf]
     exact seqCheck_of_log _ _ _ h2
 
+/-- **a completing schedule always exists** (the hypothesis `done` of the theorems above is never vacuous, and no set of
+host-creating threads can be wedged): from EVERY well-formed initial `healthStore` and every set of threads some
+schedule runs all of them to completion — one thread at a time obtains its word within the length of the pointer
+program, then completes each call within three steps. -/
+theorem complete_schedule_exists_alloc (reg : Reg) (heap : List Word) (hreg : RegOK reg heap)
+    (specs : List (Addr × List Op)) : ∃ s, ((World.init reg heap specs).run genPP genP s).done = true := by
+  rw [genP_cas]
+  obtain ⟨h1, h2⟩ := init_reachable reg heap specs
+  exact exists_complete_world genPP genPP_safe genPP_term _ _ (winv_init reg heap hreg specs) h1 h2 rfl
+
 -- non-vacuity: a well-formed non-empty `healthStore`; a contended (round-robin) schedule of three host-creating threads
 -- (two for the fresh address 7, one for the known address 3) that completes with the two hosts of address 7 sharing one
 -- word.  (Steps of a finished thread are no-ops, so the schedule also completes for pointer programs with two steps.)
